@@ -382,3 +382,8 @@ func taskDone(self int) {
 func taskStart(self int) {
 	park(&tasks[self].wake)
 }
+
+// EventCount returns the number of events recorded so far in this run.
+//
+//go:norace
+func EventCount() int { return nevents }
